@@ -4,8 +4,13 @@
 package main
 
 import (
+	"errors"
+
 	"github.com/EliCDavis/polyform/nodes"
 )
+
+// error returned by a processor that is allowed to fail
+var errFail = errors.New("harness processor: rejected input")
 
 const hmod = 1000003
 
@@ -13,9 +18,13 @@ type out = nodes.NodeOutput[int]
 
 type meta struct {
 	salt  int
+	fail  bool // the processor returns an error when its hash is divisible by 3
 	execs int
+	fails int // number of executions that returned an error
 }
 
+// failing processors return (hmod + hash, err): a value no successful run can produce, so that the
+// error/value distinction is part of what consumers and the from-scratch evaluation see
 func (m *meta) run(ports [][]out) (int, error) {
 	m.execs++
 	acc := m.salt
@@ -24,6 +33,10 @@ func (m *meta) run(ports [][]out) (int, error) {
 		for _, o := range p {
 			acc = (acc*31 + o.Value()) % hmod
 		}
+	}
+	if m.fail && acc%3 == 0 {
+		m.fails++
+		return hmod + acc, errFail
 	}
 	return acc, nil
 }
@@ -107,6 +120,35 @@ func (d WideData) Process() (int, error) {
 	return d.m.run([][]out{sc(d.F), sc(d.E), sc(d.D), sc(d.C), sc(d.B), sc(d.A)})
 }
 
+// two array ports and plain ports before / between / after them (dependency names Alpha < Inputs.k <
+// Offset < Scales.k < Zeta)
+type MultiData struct {
+	m      *meta
+	Scales []out
+	Offset out
+	Inputs []out
+	Zeta   out
+	Alpha  out
+}
+
+func (d MultiData) Process() (int, error) {
+	return d.m.run([][]out{d.Scales, sc(d.Offset), d.Inputs, sc(d.Zeta), sc(d.Alpha)})
+}
+
+// prefix-sharing names: I < In.k < In2 < Ina < Inb.k
+type PrefData struct {
+	m   *meta
+	In2 out
+	Inb []out
+	In  []out
+	Ina out
+	I   out
+}
+
+func (d PrefData) Process() (int, error) {
+	return d.m.run([][]out{sc(d.In2), d.Inb, d.In, sc(d.Ina), sc(d.I)})
+}
+
 var kinds = []struct {
 	Name   string
 	Fields []field
@@ -118,6 +160,8 @@ var kinds = []struct {
 	{"mix", []field{{"V2", false}, {"V", true}, {"A", false}}},
 	{"two", []field{{"X", true}, {"W", true}, {"S", false}}},
 	{"wide", []field{{"F", false}, {"E", false}, {"D", false}, {"C", false}, {"B", false}, {"A", false}}},
+	{"multi", []field{{"Scales", true}, {"Offset", false}, {"Inputs", true}, {"Zeta", false}, {"Alpha", false}}},
+	{"pref", []field{{"In2", false}, {"Inb", true}, {"In", true}, {"Ina", false}, {"I", false}}},
 }
 
 func kindIndex(name string) int {
@@ -138,8 +182,8 @@ type live struct {
 	m     *meta             // struct nodes only
 }
 
-func newStruct(kind string, salt int) *live {
-	m := &meta{salt: salt}
+func newStruct(kind string, salt int, fail bool) *live {
+	m := &meta{salt: salt, fail: fail}
 	switch kind {
 	case "chain":
 		n := &nodes.Struct[int, ChainData]{Data: ChainData{m: m}}
@@ -161,6 +205,12 @@ func newStruct(kind string, salt int) *live {
 		return &live{node: n, ref: n.Out(), value: n.Value, m: m}
 	case "wide":
 		n := &nodes.Struct[int, WideData]{Data: WideData{m: m}}
+		return &live{node: n, ref: n.Out(), value: n.Value, m: m}
+	case "multi":
+		n := &nodes.Struct[int, MultiData]{Data: MultiData{m: m}}
+		return &live{node: n, ref: n.Out(), value: n.Value, m: m}
+	case "pref":
+		n := &nodes.Struct[int, PrefData]{Data: PrefData{m: m}}
 		return &live{node: n, ref: n.Out(), value: n.Value, m: m}
 	}
 	panic("unknown kind " + kind)
